@@ -448,7 +448,7 @@ def h_expire_error():
     P = eng.prove
     if header.type != K['XFRM_MSG_EXPIRE'] or msg is None:
         return {'class': ['expire'], 'violation': 'EXPIRE not decoded'}
-    got = MX.bytes(msg.state.id.spi)
+    got = getattr(MX, 'bytes', bytes)(msg.state.id.spi)
     P(core.SymBytes.lift(got) == spi, 'EXPIRE: SPI decoded to other bytes')
     P((msg.hard != 0) == (hard != 0), 'EXPIRE: hard flag')
     # ack / error reply of a request
